@@ -1,9 +1,6 @@
 (* SetOpCorr.v — executable interpreter for the C11 correspondence cases.  Definitions only. *)
 From PV Require Import Base SetOp.
 
-Definition mk_kw (d q : option (option string)) (aq : option string) (ak : bool) (other : string) : kwargs :=
-  {| kw_dialect := d; kw_quote := q; kw_alias_quote := aq; kw_as_keyword := ak; kw_other := other |}.
-
 (* an operand's rendering function given as a finite table recorded from the implementation:
    (kwargs, text with subquery=False, text with subquery=True) *)
 Definition no_text : string := "<no text recorded for these kwargs>".
@@ -18,10 +15,10 @@ Fixpoint lookup_kw1 (tbl : list (kwargs * string)) (k : kwargs) : string :=
   | (k', t) :: r => if kwargs_eqb k k' then t else lookup_kw1 r k
   end.
 
-Definition mk_op (sel : list (option string)) (builder wrap : bool) (dialect quote : option string)
+Definition mk_op (sel : list (option string)) (builder chain wrap : bool) (defaults forced : kwargs) (page : pstyle)
            (tbl : list (kwargs * string * string)) : operand :=
-  {| o_sel := sel; o_builder := builder; o_wrap := wrap; o_dialect := dialect; o_quote := quote;
-     o_text := lookup_kw tbl |}.
+  {| o_sel := sel; o_builder := builder; o_chain := chain; o_wrap := wrap; o_defaults := defaults; o_forced := forced;
+     o_page := page; o_text := lookup_kw tbl |}.
 
 Definition mk_field (alias : option string) (tbl : list (kwargs * string)) : option string * (kwargs -> string) :=
   (alias, lookup_kw1 tbl).
